@@ -6,6 +6,10 @@ use crate::ops::*;
 use crate::rng::Rng;
 use serde::{Deserialize, Serialize};
 
+fn yes() -> bool {
+    true
+}
+
 #[derive(Clone, Debug, Serialize, Deserialize)]
 pub struct GenCfg {
     /// selection lengths to aim at now and then (thresholds such as the 40 codepoints of automatic text validation)
@@ -43,6 +47,9 @@ pub struct GenCfg {
     /// percent of failing requests that would leave residue (listed finding) that are re-drawn
     #[serde(default)]
     pub pct_redraw_residue: usize,
+    /// selector style "the same annotation named twice" (off for C08: a constraint's own answer then has duplicates)
+    #[serde(default = "yes")]
+    pub same_annotation_twice: bool,
 }
 
 pub const W_ADD_RESOURCE: usize = 0;
@@ -121,6 +128,7 @@ impl GenCfg {
             pref_lens: Vec::new(),
             allow_odd_ids: false,
             pct_redraw_residue: 0,
+            same_annotation_twice: true,
         }
     }
 }
@@ -214,6 +222,15 @@ impl<'a> Gen<'a> {
         }
     }
 
+    /// for references where a miss is an error (resources, annotations, data items; not datasets and keys,
+    /// which an insertion creates when their id is not found): a handle may also come in its textual form
+    fn by_lookup(&mut self) -> By {
+        match self.by() {
+            By::Handle if self.rng.chance(1, 3) => By::Temp,
+            other => other,
+        }
+    }
+
     /// reference to a resource: mostly live
     fn res_ref(&mut self, m: &Model) -> Ref {
         let live: Vec<usize> = m.resources.iter().enumerate().filter(|(_, r)| r.live).map(|(i, _)| i).collect();
@@ -222,7 +239,7 @@ impl<'a> Gen<'a> {
         } else {
             *self.rng.pick(&live)
         };
-        Ref { idx, by: self.by() }
+        Ref { idx, by: self.by_lookup() }
     }
 
     fn set_ref(&mut self, m: &Model) -> Ref {
@@ -251,7 +268,7 @@ impl<'a> Gen<'a> {
         } else {
             *self.rng.pick(&live)
         };
-        Ref { idx, by: self.by() }
+        Ref { idx, by: self.by_lookup() }
     }
 
     fn key_ref(&mut self, m: &Model, set: &Ref) -> Ref {
@@ -283,7 +300,7 @@ impl<'a> Gen<'a> {
             }
             None => self.rng.below(4),
         };
-        Ref { idx, by: self.by() }
+        Ref { idx, by: self.by_lookup() }
     }
 
     /// a cursor pair addressing b..e within a text of length len, in a random alignment mix
@@ -476,7 +493,7 @@ impl<'a> Gen<'a> {
         let bad_at = if invalid { Some(self.rng.below(n)) } else { None };
         // bias: runs of adjacent text selections on one resource / consecutive annotations (range compression)
         let style = self.rng.below(6);
-        if style == 5 && !invalid {
+        if style == 5 && !invalid && self.cfg.same_annotation_twice {
             // the same annotation named twice (two parts of it, or twice as a whole), optionally with another
             // member: every index entry made per member must also be taken out per member on removal
             let live: Vec<usize> = m.annotations.iter().enumerate().filter(|(_, a)| a.live).map(|(i, _)| i).collect();
@@ -795,7 +812,13 @@ impl<'a> Gen<'a> {
                 }
             }
             W_REMOVE_RESOURCE => Op::RemoveResource { r: self.res_ref(m) },
-            W_REMOVE_DATASET => Op::RemoveDataset { s: self.set_ref(m) },
+            W_REMOVE_DATASET => {
+                let mut s = self.set_ref(m);
+                if s.by == By::Handle && self.rng.chance(1, 3) {
+                    s.by = By::Temp;
+                }
+                Op::RemoveDataset { s }
+            }
             W_PROTECT => Op::ProtectText {
                 mode: *self.rng.pick(&[ProtectMode::Auto, ProtectMode::Checksum, ProtectMode::Text, ProtectMode::Both]),
             },
